@@ -5,7 +5,6 @@ import (
 	"go/token"
 	"reflect"
 	"strings"
-	"sync"
 
 	"github.com/ipfs/go-cid"
 	"github.com/ipld/go-ipld-prime/datamodel"
@@ -393,28 +392,21 @@ func fieldNameFromSchema(name string) string {
 	return fieldName
 }
 
-var defaultTypeSystem schema.TypeSystem
-
-// defaultTypeSystemMu serialises schema inference: inferred types are looked up in and accumulated
-// into the package-level type system, and bindings may be created from many goroutines.
-var defaultTypeSystemMu sync.Mutex
-
+// inferSchemaSync infers a schema for a Go type. Every top-level inference builds its types in a
+// type system of its own: nothing that is inferred is kept in package-level state, so bindings
+// created from many goroutines neither wait for one another nor read what another one is writing,
+// and inferring the same type again simply builds it again.
 func inferSchemaSync(typ reflect.Type) schema.Type {
-	defaultTypeSystemMu.Lock()
-	defer defaultTypeSystemMu.Unlock()
-	return inferSchema(typ, 0)
-}
-
-func init() {
-	defaultTypeSystem.Init()
-
-	defaultTypeSystem.Accumulate(schemaTypeBool)
-	defaultTypeSystem.Accumulate(schemaTypeInt)
-	defaultTypeSystem.Accumulate(schemaTypeFloat)
-	defaultTypeSystem.Accumulate(schemaTypeString)
-	defaultTypeSystem.Accumulate(schemaTypeBytes)
-	defaultTypeSystem.Accumulate(schemaTypeLink)
-	defaultTypeSystem.Accumulate(schemaTypeAny)
+	ts := new(schema.TypeSystem)
+	ts.Init()
+	ts.Accumulate(schema.SpawnBool("Bool"))
+	ts.Accumulate(schema.SpawnInt("Int"))
+	ts.Accumulate(schema.SpawnFloat("Float"))
+	ts.Accumulate(schema.SpawnString("String"))
+	ts.Accumulate(schema.SpawnBytes("Bytes"))
+	ts.Accumulate(schema.SpawnLink("Link"))
+	ts.Accumulate(schema.SpawnAny("Any"))
+	return inferSchema(typ, 0, ts)
 }
 
 // TODO: support IPLD maps and unions in inferSchema
@@ -425,27 +417,27 @@ func init() {
 // has them, and test that that works as expected
 
 // inferSchema can build a schema from a Go type
-func inferSchema(typ reflect.Type, level int) schema.Type {
+func inferSchema(typ reflect.Type, level int, ts *schema.TypeSystem) schema.Type {
 	if level > maxRecursionLevel {
 		panic(fmt.Sprintf("inferSchema: refusing to recurse past %d levels", maxRecursionLevel))
 	}
 	switch typ.Kind() {
 	case reflect.Bool:
-		return schemaTypeBool
+		return ts.TypeByName("Bool")
 	case reflect.Int64:
-		return schemaTypeInt
+		return ts.TypeByName("Int")
 	case reflect.Float64:
-		return schemaTypeFloat
+		return ts.TypeByName("Float")
 	case reflect.String:
-		return schemaTypeString
+		return ts.TypeByName("String")
 	case reflect.Struct:
 		// these types must match exactly since we need symmetry of being able to
 		// get the values an also assign values to them
 		if typ == goTypeCid || typ == goTypeCidLink {
-			return schemaTypeLink
+			return ts.TypeByName("Link")
 		}
 		if name := typ.Name(); name != "" {
-			if existing := defaultTypeSystem.TypeByName(name); existing != nil {
+			if existing := ts.TypeByName(name); existing != nil {
 				// Already inferred -- by an earlier call, or for another field of the same struct:
 				// reuse it rather than accumulating a second type of the same name (which panics).
 				return existing
@@ -456,7 +448,7 @@ func inferSchema(typ reflect.Type, level int) schema.Type {
 		for i := range fieldsSchema {
 			field := typ.Field(i)
 			ftyp := field.Type
-			ftypSchema := inferSchema(ftyp, level+1)
+			ftypSchema := inferSchema(ftyp, level+1, ts)
 			fieldsSchema[i] = schema.SpawnStructField(
 				field.Name, // TODO: allow configuring the name with tags
 				ftypSchema.Name(),
@@ -471,37 +463,37 @@ func inferSchema(typ reflect.Type, level int) schema.Type {
 			panic("TODO: anonymous composite types")
 		}
 		typSchema := schema.SpawnStruct(name, fieldsSchema, nil)
-		defaultTypeSystem.Accumulate(typSchema)
+		ts.Accumulate(typSchema)
 		return typSchema
 	case reflect.Slice:
 		if typ.Elem().Kind() == reflect.Uint8 {
 			// Special case for []byte.
-			return schemaTypeBytes
+			return ts.TypeByName("Bytes")
 		}
 
 		nullable := false
 		if typ.Elem().Kind() == reflect.Ptr {
 			nullable = true
 		}
-		etypSchema := inferSchema(typ.Elem(), level+1)
+		etypSchema := inferSchema(typ.Elem(), level+1, ts)
 		name := typ.Name()
 		if name == "" {
 			name = "List_" + etypSchema.Name()
 		}
-		if existing := defaultTypeSystem.TypeByName(name); existing != nil {
+		if existing := ts.TypeByName(name); existing != nil {
 			return existing
 		}
 		typSchema := schema.SpawnList(name, etypSchema.Name(), nullable)
-		defaultTypeSystem.Accumulate(typSchema)
+		ts.Accumulate(typSchema)
 		return typSchema
 	case reflect.Interface:
 		// these types must match exactly since we need symmetry of being able to
 		// get the values an also assign values to them
 		if typ == goTypeLink {
-			return schemaTypeLink
+			return ts.TypeByName("Link")
 		}
 		if typ == goTypeNode {
-			return schemaTypeAny
+			return ts.TypeByName("Any")
 		}
 		panic("bindnode: unable to infer from interface")
 	}
